@@ -105,6 +105,7 @@ func (cfg Config) readerSpec() ReaderSpec {
 var simNoHooks = sim.Hooks{}
 
 func simDecode(c *Case, res *Result, hooks sim.Hooks, spec ReaderSpec, stream []byte, sizes []int, after int, limit int) ROutcome {
+	sim.Heartbeat()
 	var ro ROutcome
 	s := sim.Run(c.Tape, sim.Options{Hooks: hooks, KeepTrace: c.KeepTrace, MaxEvents: 200000 + 4*len(stream)}, func(env *sim.Env) {
 		src := sim.NewSimSource(env.S, "in", stream)
